@@ -117,3 +117,10 @@ Proof. split; reflexivity. Qed.
 Example fin_djb_example : fin_djb (0, 0, 1) = fold_left (fun h b => Z.lxor (w32 (h * 33)) b)
   [0;0;0;0;0;0;0;1; 0;0;0;0;0;0;0;0; 0;0;0;0;0;0;0;0] 5381.
 Proof. reflexivity. Qed.
+
+(* open finding ttl-label-kept-with-ttl-header: the list that is fingerprinted and stored depends on whether the request
+   carried a TTL header (fingerprint_protocol_independent has "same TTL header" as a premise for this reason) *)
+Example ttl_label_depends_on_header :
+  on_entries_labels 0 [("app", "v"); ("__ttl_days__", "5")]%string = [("app", "v")]%string /\
+  on_entries_labels 7 [("app", "v"); ("__ttl_days__", "5")]%string = [("app", "v"); ("__ttl_days__", "5")]%string.
+Proof. split; reflexivity. Qed.
